@@ -304,9 +304,9 @@ func runC10(c *Ctx, si interface{}) {
 		for _, in := range [][]string{nil, {}} {
 			m := mark()
 			wl, err := spg.NewWordList(in)
-			out := since(m)
+			_ = since(m)
 			c.Eval(1)
-			c.T(err, wl == nil, out.String())
+			c.T(err, wl == nil)
 			if err == nil || wl != nil {
 				c.Violate("empty-accepted", "", "NewWordList(empty) returned list=%v err=%v; want nil list and an error", wl, err)
 				return
